@@ -51,7 +51,7 @@ def load_obligations(prop, tier):
                 continue
             params = meta["params"]
             if isinstance(params, dict):
-                params = params.get(tier, params.get("quick"))
+                params = params.get("thorough" if os.environ.get("VK_ALLPARAMS") else tier, params.get("quick"))
             params = list(params) if params is not None else [None]
             out.append((mod.__name__, mod.__file__, f.__name__, meta, params, inspect.getdoc(f) or ""))
     return out
@@ -286,7 +286,7 @@ def run_obligation(prop, modname, path, func, meta, param, tier, known, doc):
 
 
 # ----------------------------------------------------------------------------- property
-def run_property(prop, tier, selftests=()):
+def run_property(prop, tier, only=None, budget=None):
     t0 = time.time()
     seed = int(os.environ.get("VERIF_SEED", "0") or 0)
     os.makedirs(os.path.join(ROOT, "evidence"), exist_ok=True)
@@ -305,6 +305,11 @@ def run_property(prop, tier, selftests=()):
     jobs = []
     for modname, path, func, meta, params, doc in obs:
         for prm in params:
+            label = func if prm is None else "%s[%d]" % (func, prm)
+            if only and not re.search(only, label):
+                continue
+            if budget:
+                meta = dict(meta, timeout=(budget, budget))
             jobs.append((prop, modname, path, func, meta, prm, tier, known, doc))
     results = []
     with cf.ThreadPoolExecutor(max_workers=max(1, MAX_PAR // 1)) as ex:
